@@ -112,6 +112,18 @@ class C03(Prop):
             maybe_disturb(grammar(v), code, v)
             m, prov = tree_via(grammar(v), code, case.get('prov', 'fresh'), case.get('how', 0), digest(code, v, 'c03').hex(),
                                lambda mod, text: check_positions(mod, text))
+            if len(code) % 2:
+                # a client that splits the text of multi-line leaves with the public helper and edits the list it got (the list
+                # belongs to the caller); positions are computed from the same texts afterwards
+                import parso
+                k = 0
+                for l in leaves(m):
+                    if k < 12 and ('\n' in l.value or '\r' in l.value):
+                        k += 1
+                        for keep in (False, True):
+                            r = parso.split_lines(l.value, keepends=keep)
+                            r.pop()
+                            r.append('edited')
             fail, info = check_positions(m, code)
             if fail is not None and prov != 'fresh':
                 fail = (fail[0], 'tree provenance %s: %s' % (prov, fail[1]))
